@@ -33,7 +33,9 @@ def run_case(case):
     died, harness = thread_exc_violations(hist['thread_excs'], V)
     if harness:
         raise HarnessError('thread exception in cache harness: %r' % harness)
-    viol = O.c06(case, hist) + [v for v in O.c01(case, hist) if v['kind'] == 'wrong-value'] + died
+    # "never ... delays any other caller beyond a recomputation": the stall accounting of C05 applies here too
+    viol = O.c06(case, hist) + [v for v in O.c01(case, hist) if v['kind'] == 'wrong-value'] + died \
+        + [v for v in O.c05(case, hist) if v['kind'] == 'stall']
     cl = G.structure(case, hist)
     nt = ('inv-failed' in cl or 'inv-cancelled' in cl or 'caller-cancelled' in cl or 'left-pending' in cl) \
         and ('cross-loop-wait' in cl or 'take-over' in cl)
